@@ -1,5 +1,4 @@
-//go:build verif
-
+//go:build verif && verif_c13
 // Verification hooks for property C13 (password protection / compound file
 // writer). Compiled only with `-tags verif`; adds code and changes none.
 
